@@ -1,0 +1,40 @@
+//go:build verif
+
+// Contract for the work splitter of this field package (comment-only; installed by /verif/gcv gen-contracts):
+// `execute` is a copy of internal/parallel.Execute ("copy paste ... as we don't want to generate code importing
+// internal/") and is put under the same contract. Whatever the number of iterations and the number of tasks, the
+// ranges [start, end) that it hands to the work function - one per goroutine - are contiguous, start at 0, are not
+// reversed and end at nbIterations: they partition [0, nbIterations). The go statements are executed as calls at the
+// point where the goroutine is started (option go-as-call); the work function is an opaque call through the function
+// value; the wait group is opaque.
+
+package fr
+
+//@ func runtime.NumCPU
+//@ assumed runtime.NumCPU (standard library): the number of logical CPUs usable by the process, at least 1
+//@ ensures result >= 1 && result <= 65536
+//@ end
+
+//@ func execute
+//@ option opaque-calls
+//@ option go-as-call
+//@ option inline-callees execute$1
+//@ option nomerge
+//@ option noabstract
+//@ requires 0 <= nbIterations && nbIterations <= 1099511627776
+//@ ghost covered = 0
+//@ ghost extra0 = 0
+//@ cut after def nbIterationsPerCpus #1
+//@ + lemma euclid(nbIterations, nbTasks)
+//@ cut after def extraTasks #1
+//@ + ghost extra0 = extraTasks
+//@ + invariant[remainder] 0 <= extraTasks && (extraTasks < nbTasks || nbTasks == 0)
+//@ loop 0
+//@ + invariant[partition] 0 <= i && i <= nbTasks && 1 <= nbIterationsPerCpus && nbIterations == nbTasks*nbIterationsPerCpus + extra0 && 0 <= extra0 && (extra0 < nbTasks || nbTasks == 0) && 0 <= extraTasks && 0 <= extraTasksOffset && extraTasksOffset + extraTasks == extra0 && extraTasksOffset <= i && (extraTasks > 0 ==> extraTasksOffset == i) && covered == i*nbIterationsPerCpus + extraTasksOffset
+//@ + havoc covered
+//@ cut before call work #*
+//@ + invariant[contiguous] callarg0 == covered && callarg0 <= callarg1
+//@ cut after call work #*
+//@ + ghost covered = callarg1
+//@ ensures[covers] covered == nbIterations
+//@ end
